@@ -247,6 +247,65 @@ def check_calculate_xpath(rec, d):
             rec.violation("C20|calculate_xpath|path", dict(case, node=_pp(p)), f"xpath {index[p].xpath!r}, chain of positions spells {exp!r}")
 
 
+def kids20(n):
+    out = []
+    if isinstance(n, GI):
+        if n.opt is not None:
+            out.append((n.opt, "opt", None))
+        out += [(c, "items", i) for i, c in enumerate(n.items)]
+        out += [(c, "lst", i) for i, c in enumerate(n.lst)]
+        if n.child is not None:
+            out.append((n.child, "child", None))
+    elif isinstance(n, GR) and n.req is not None:
+        out.append((n.req, "req", None))
+    return out
+
+
+def check_recalculate(rec, d):
+    """Short histories: calculate_xpath, one edit below the root, calculate_xpath again - every node must then carry
+    the path spelled by the chain of its ACTUAL position (read off the objects by plain attribute access)."""
+    pos = U.positions(d)
+    for p, dd in pos[1:]:
+        for edit in ("remove", "replace-with-new-leaf", "replace-property"):
+            root, index = build(d)
+            node = index[p]
+            parent_desc = dict(pos)[p[:-1]]
+            fkind = U.fspec(parent_desc[0], p[-1][0]).kind
+            if edit == "remove" and fkind == ONE:
+                continue
+            if edit == "replace-property" and dd[0] not in ("GL", "GS"):
+                continue
+            rec.count("states"); rec.count("transitions"); rec.count("traces"); rec.count("evaluations")
+            case = {"tree": d, "edit": edit, "at": [list(s_) for s_ in p]}
+            if root.calculate_xpath() is not True:
+                rec.violation("C20|calculate_xpath|root", case, "calculate_xpath on an attached root must return True")
+                continue
+            try:
+                if edit == "remove":
+                    node.replace_with(None)
+                elif edit == "replace-with-new-leaf":
+                    node.replace_with(GS(5, origin=NO_ORIGIN))
+                else:
+                    node.replace(v=node.v + 1)
+            except Exception as e:  # noqa: BLE001
+                rec.outcome(f"recalculate:{edit}:{type(e).__name__}")
+                del e
+                continue
+            rec.outcome(f"recalculate:{edit}:ok")
+            if root.calculate_xpath() is not True:
+                rec.violation("C20|calculate_xpath|root", case, "calculate_xpath on an attached root must return True")
+                continue
+            stack = [(root, f"/@root[0]{type(root).__name__}")]
+            while stack:
+                x, xp = stack.pop()
+                if x.xpath != xp:
+                    rec.violation("C20|calculate_xpath|stale-after-edit", case, f"after the edit and a second calculate_xpath a node carries {x.xpath!r}; its chain of positions spells {xp!r}")
+                    stack = []
+                    break
+                for c, f, i in kids20(x):
+                    stack.append((c, f"{xp}/@{f}[{i or 0}]{type(c).__name__}"))
+
+
 XTOK = ["/", "//", "@", "x", "GL", "[", "]", "0", "12", " ", "MemoryTextSource", "Nope", "*"]
 FIELDS = [None, "items", "child", "lst", "nosuch"]
 INDICES = [None, 0, 1, 12]
@@ -262,6 +321,7 @@ def run_shard(cfg):
             rec.rank = j
             check_traversal(rec, d, light=True)
             check_calculate_xpath(rec, d)
+            check_recalculate(rec, d)
     for n in range(1, cfg["n"] + 1):
         for d in U.trees(n):
             idx += 1
@@ -269,6 +329,7 @@ def run_shard(cfg):
                 rec.rank = 100 + idx
                 check_traversal(rec, d, light=(n >= 4))
                 check_calculate_xpath(rec, d)
+                check_recalculate(rec, d)
     # xpath
     N._nodes.clear()
     tcs = [TreeCase(d) for d in shaped()]
@@ -320,4 +381,5 @@ def replay(case, cfg):
     else:
         check_traversal(rec, case["tree"], light=False)
         check_calculate_xpath(rec, case["tree"])
+        check_recalculate(rec, case["tree"])
     return rec.result()["violations"]
